@@ -494,3 +494,25 @@ Proof.
       * intros k. rewrite H2. apply roots_lheight; assumption.
       * intros _. apply H3. intros v _ C. apply NC. eapply on_cycle_cyclic. exact C.
 Qed.
+
+(* distance_to_primary_level = node_depth - 1, or -1 when a cycle is reachable *)
+Theorem distance_to_primary_level_correct : forall g v, wf g -> v < length g ->
+  (distance_to_primary_level g v = Ok (-1)%Z <-> cycle_from g v) /\
+  (forall k, height g v (S k) -> distance_to_primary_level g v = Ok (Z.of_nat k)).
+Proof.
+  intros g v Hwf Hv. destruct (node_depth_correct g v Hwf Hv) as [H1 [H2 H3]].
+  unfold distance_to_primary_level. split.
+  - split.
+    + intros E. destruct (node_depth g v) as [d| |] eqn:Ed; try discriminate.
+      apply H1. f_equal. injection E as E. destruct (0 <? d)%Z eqn:L.
+      * apply Z.ltb_lt in L. lia.
+      * apply Z.ltb_ge in L.
+        destruct (Z.eq_dec d (-1)) as [->|Hne]; [reflexivity|]. exfalso.
+        assert (NC : ~ cycle_from g v) by (intros C; apply H1 in C; congruence).
+        destruct (H3 NC) as [k Hk]. injection Hk as ->.
+        assert (Hh : height g v k) by (apply H2; reflexivity).
+        destruct (height_pos g v k Hh) as [h ->]. lia.
+    + intros C. apply H1 in C. rewrite C. reflexivity.
+  - intros k Hk. apply H2 in Hk. rewrite Hk.
+    replace (0 <? Z.of_nat (S k))%Z with true by (symmetry; apply Z.ltb_lt; lia). f_equal. lia.
+Qed.
